@@ -85,9 +85,10 @@ impl Parser for Constant {
                 preceded(opt(blank), ConstValue::parse),
                 opt(blank),
                 opt(Annotations::parse),
+                opt(blank),
                 opt(list_separator),
             )),
-            |(_, r#type, name, _, value, _, annotations, _)| Constant {
+            |(_, r#type, name, _, value, _, annotations, _, _)| Constant {
                 name,
                 r#type,
                 value,
